@@ -23,6 +23,7 @@ MANIFEST = {
 RULE = ("placements: every documented placement (22) x every documented receiver form and every non-receiver (17) x emit/emit_to; "
         "fnshapes: enclosing function with no parameters / only non-handle parameters / only the handle / a local let named app, window or webview (untyped, mut, typed) x receivers that fit (static method chain, clone of it, call().clone(), field of a global, field of a call result, plain call and the static itself which must not count) x attributes/visibility/async/unsafe/const/command-or-not (29 combinations) x rotating placement x emit/emit_to; "
         "compositions: every ordered pair of 33 wrappers around one emit (15 documented: method receiver without/with arguments, await, ?, block, if-then, if-else, else-if, match arm expression/block, loop, while, for, let and let-else initialiser in a block; 18 undocumented: parentheses, &, unary, cast, call/method argument, field access, index, closure call, return, break value, macro argument, tuple, closure body, unsafe/async block, condition, scrutinee), 500 (quick) sampled triples, as let initialiser and as expression statement; "
+        "mappings: 6 type_mappings sets (primitive targets, one non-primitive target, keys that are Rust primitives, an unrelated key, none) x 13 payload types (mapped names bare / referenced / qualified, unmapped, primitives, nested in Vec / Option / HashMap / tuple) x param / let / alias / struct expression / clone, both modes, through a configuration file (CLI) and through both visitors (library API); expected type computed by the spec with the mapping applied; a quarter of the structured cases carry a mapping; "
         "payloads: every payload form (27) and every leaf/depth-1 type (36) x param/let/let-without-init/alias x {x,&x,x.clone(),&x.clone(),&&x}, "
         "every untyped initialiser form x fresh/shadowing, scoping cases; names: every name of length <= 2 over {a,B,1,_,-,:,/}, every pair of "
         "distinct names of length <= 2 over {a,A,_,-}; repeats across sites/functions/files, no-event and no-command projects; "
@@ -56,7 +57,14 @@ def run_cli(sb, idx, case):
     root = "c%d" % idx
     for f in G.rust_files(case):
         sb.write(os.path.join(root, f["name"]), f["src"])
-    args = ["generate", "-p", sb.path(root, "src"), "-o", sb.path(root, "out")]
+    if case.get("mappings"):
+        # configuration file route: type_mappings can only be given there
+        sb.write(os.path.join(root, "typegen.json"), json.dumps({
+            "project_path": sb.path(root, "src"), "output_path": sb.path(root, "out"),
+            "validation_library": "zod" if case.get("zod") else "none", "type_mappings": case["mappings"]}))
+        args = ["generate", "-c", sb.path(root, "typegen.json"), "--force"]
+    else:
+        args = ["generate", "-p", sb.path(root, "src"), "-o", sb.path(root, "out")]
     if case.get("zod"):
         args += ["-v", "zod"]
     rc, out = sb.cli(args, cwd=sb.path(root))
@@ -76,7 +84,7 @@ def evaluate(cases, judge_property=True):
     for i, c in enumerate(cases):
         c["id"] = i
         c["files"] = sorted(c["files"], key=lambda f: f["name"].split("/"))     # PathBuf order = the model's file order
-    hcases = [{"id": c["id"], "files": G.rust_files(c)} for c in cases]
+    hcases = [{"id": c["id"], "files": G.rust_files(c), "mappings": c.get("mappings", {})} for c in cases]
     hobs = vlib.run_harness("c12-events", hcases, per_case_timeout=20)
     with vlib.Sandbox("c12") as sb:
         cli = vlib.pmap(lambda ic: run_cli(sb, ic[0], ic[1]), list(enumerate(cases)))
@@ -85,6 +93,8 @@ def evaluate(cases, judge_property=True):
     outs = []
     for c, h, o, m in zip(cases, hobs, cli, res):
         case = {"files": c["files"], "zod": c.get("zod", False)}
+        if c.get("mappings"):
+            case["mappings"] = c["mappings"]
         if m and m[0] == "runner-error":
             raise vlib.BuildError("runner: %s on %s" % (m, json.dumps(case)[:500]))
         if h.get("skipped"):
@@ -93,7 +103,7 @@ def evaluate(cases, judge_property=True):
         if "panic" in h:
             outs.append(Outcome(case, False, False, detail={"impl": "PANIC " + h["panic"]}, nontrivial=nontrivial))
             continue
-        in_dom, classes, m_events, m_out, i_obs, i_compl, m_compl, spec = m
+        in_dom, classes, m_events, m_out, i_obs, i_compl, m_compl, spec, m_texts = m
         in_dom = in_dom == "true"
         # (a) analysis: EventInfo per top-level-visible file, in order
         h_events = []
@@ -104,6 +114,13 @@ def evaluate(cases, judge_property=True):
             h_events.append([[e["name"], e["payload"]] for e in hf.get("events", [])])
         # the model's files carry only top-level functions but keep one entry per file
         corr_events = h_events == [[list(e) for e in f] for f in m_events]
+        # library API: what both visitors print for each payload under the configured type_mappings
+        # (before the add_types_prefix filter) against the model's payload text
+        for hf, mf in zip(h["files"], m_texts):
+            for e, (mn, mt) in zip(hf.get("events", []), mf):
+                for k in ("ts", "ts_zod"):
+                    if mt not in (e[k], "types." + e[k]):
+                        corr_events = False
         # (b) generation: events.ts token chunks (multiset), presence, re-export
         m_generated, m_chunks, m_reexp = m_out[0] == "true", m_out[1], m_out[2] == "true"
         i_chunks, i_reexp = i_obs
@@ -174,6 +191,7 @@ def run(rep):
                ("placements", G.enum_placements(), True),
                ("fnshapes", G.enum_fnshapes(), True),
                ("compositions", G.enum_compositions(rng, 6000 if thorough else 500), True),
+               ("mappings", G.enum_mappings(), True),
                ("payloads", G.enum_payloads(), True),
                ("names", G.enum_names(), True),
                ("repeats", G.enum_repeats(), True)]
